@@ -44,6 +44,8 @@ def minimise_cfg(cfg, fails, budget=120):
         if ok(c):
             cfg = c
     for k in list(cfg.opts):
+        if k in ('max_steps', 'build_timeout'):
+            continue        # never drop a safety net or the fault under study while shrinking
         default = dict(is_group_optim=True, is_rank_optim=True, is_build_models=False,
                        max_steps=None, build_timeout=None).get(k, None)
         if cfg.opts[k] != default:
